@@ -17,7 +17,7 @@ ID = 'C15'
 LEVEL = 'exploration'
 IDS = [2, 5, 9, 4]           # label k of a spike means cluster id IDS[k] (gapped, unsorted)
 BW = [(1, 1), (1, 3), (2, 5), (2, 8), (3, 7)]
-RATES = [1, 2, 4, 1024]
+RATES = [1, 2, 4, 1024]      # (the 'coarse' driver uses 32768 Hz)
 DTYPES = ['int32', 'int64', 'uint16', 'uint32']
 # how the spike times are handed over; integer types carry whole seconds (samples = k * rate)
 TIME_TYPES = ['float64', 'float64', 'int64', 'uint32', 'list']
@@ -62,13 +62,30 @@ def _rand_case(draw):
     gaps = draw(st.lists(st.integers(0, maxgap), min_size=n - 1, max_size=n - 1))
     nlab = draw(st.integers(1, 4))
     labels = draw(st.lists(st.integers(0, nlab - 1), min_size=n, max_size=n))
-    b = draw(st.integers(1, 12))
-    w = draw(st.integers(1, 60))
+    b = draw(st.integers(1, 12) | st.integers(13, 250))
+    w = draw(st.integers(1, 60)) if b <= 12 else draw(st.integers(1, 5 * b))
+    if b > 12 and draw(st.booleans()):
+        # pairs exactly a whole number of bins apart (the floor must land in that bin)
+        gaps = [g * b if draw(st.booleans()) else g for g in gaps]
     return {'k': 'rand', 'gaps': gaps, 'labels': labels, 'bw': [b, w],
             'dt': draw(st.sampled_from(DTYPES)), 'rate': draw(st.sampled_from(RATES)),
             # trains may be aligned on an event: times on both sides of zero
             'start': draw(st.integers(0, 1000) | st.integers(-300, 0)),
             'tt': draw(st.sampled_from(TIME_TYPES)), 'ro': draw(st.booleans())}
+
+
+@st.composite
+def _coarse_case(draw):
+    # seconds-long bins at an audio / ephys sampling rate: more than 1e5 samples per bin
+    n = draw(st.integers(2, 30))
+    gaps = draw(st.lists(st.integers(0, 40), min_size=n - 1, max_size=n - 1))
+    nlab = draw(st.integers(1, 3))
+    return {'k': 'rand', 'gaps': [g * 16384 for g in gaps],
+            'labels': draw(st.lists(st.integers(0, nlab - 1), min_size=n, max_size=n)),
+            'bw': [draw(st.sampled_from([131072, 2 ** 17 + 16384, 3 * 65536])),
+                   draw(st.integers(1, 9)) * 131072],
+            'dt': draw(st.sampled_from(DTYPES)), 'rate': 32768, 'start': 0, 'tt': 'float64',
+            'ro': False}
 
 
 def _big_rate_cases(th):
@@ -127,6 +144,7 @@ def drivers(tier):
              bound='gaps in 0..3, length<=%d' % (7 if th else 5),
              cases=lambda: _grid_cases(7 if th else 5)),
         dict(kind='hyp', name='rand', strategy=_rand_case(), examples=40000 if th else 3000),
+        dict(kind='hyp', name='coarse', strategy=_coarse_case(), examples=4000 if th else 400),
     ]
 
 
